@@ -141,6 +141,7 @@ def case_quoter(acc, name, which, w):
     return out
 
 
+route_case = case_route
 CASES = {"route": case_route, "quoter": case_quoter}
 
 
@@ -170,6 +171,60 @@ def task_quoters(name, spname, part, nparts):
         if o is not None:
             states.add(o)
     acc.state_count = len(states)
+    return acc.result()
+
+
+def case_ctor(acc, s):
+    """A whole URL text through the constructor."""
+    acc.evals += 1
+    try:
+        u = impl.URL(s)
+        bad = wellformed_url(u)
+    except (ValueError, TypeError):
+        acc.count("rejected")
+        return None
+    except Exception:  # noqa: BLE001 - C19 owns exception types
+        acc.count("other_exception")
+        return None
+    acc.nontrivial += 1
+    st = str(u)
+    if bad:
+        acc.viol("ctor", (s,), observed={"str": st, "where": bad[0], "detail": bad[1]},
+                 expected="every component within its RFC 3986 character set, %HH upper-case, ASCII",
+                 msg="URL(%r) -> %s" % (s, bad[1]))
+    return st
+
+
+CASES["ctor"] = case_ctor
+
+# port spellings: int() accepts far more than ASCII digits (any Unicode decimal digit, surrounding whitespace, sign, '_'); whatever the
+# constructor accepts must come out as ASCII
+PORT_ALPHA = ["0", "8", "\u0668", "\uff18", "\u096e", "\U0001d7d6", " ", "\xa0", "\u2003", "+", "-", "_", "a", "\xb2", "\u0660"]
+PORT_HOSTS = ["h.com", "H.com", "1.2.3.4", "[::1]", "\xe9.com", "xn--9ca.com", "h.com."]
+PORT_UI = ["", "u@", "u:p@", "@"]
+PORT_SCHEMES = ["http", "x", ""]
+
+
+def task_ports(part, nparts, k):
+    acc = Acc(ID, impl.backend)
+    states = set()
+    i = 0
+    last = None
+    for w in A.words(PORT_ALPHA, k):
+        for sc in PORT_SCHEMES:
+            for ui in PORT_UI:
+                for h in PORT_HOSTS:
+                    i += 1
+                    if i % nparts != part:
+                        continue
+                    s = (sc + ":" if sc else "") + "//" + ui + h + ":" + w + "/p?q#f"
+                    r = case_ctor(acc, s)
+                    if r is not None:
+                        states.add(r)
+                        last = (s, r)
+    acc.state_count = len(states)
+    if last:
+        acc.sample({"constructor_text": last[0], "str": last[1], "backend": impl.backend}, 1)
     return acc.result()
 
 
@@ -215,12 +270,18 @@ def plan(ctx):
                     tasks.append((M, "task_routes", (rname, sp, part, n), b, "rs"))
         for rname in LONG_ROUTES:
             tasks.append((M, "task_long", (rname,), b, "l"))
+        for part in range(4):
+            tasks.append((M, "task_ports", (part, 4, 3 if quick else 4), b, "p"))
         for name in q:
             for sp, n in quoter_spaces:
                 for part in range(n):
                     tasks.append((M, "task_quoters", (name, sp, part, n), b, "q"))
+    from vlib import sweep as _sw
+    tasks += _sw.plan_ctx(M, ctx.tier, BACKENDS)
+    ctx.notes["context_routes"] = _sw.ctx_note()
     ctx.notes["bounds"] = {"routes": len(routes_meta.NAMES), "route_word_spaces": [s for s, _ in route_spaces],
                            "quoter_word_spaces": [s for s, _ in quoter_spaces],
+                           "port_spellings": {"alphabet": PORT_ALPHA, "max_length": 3 if quick else 4, "hosts": PORT_HOSTS, "userinfo": PORT_UI, "schemes": PORT_SCHEMES},
                            "alphabet_sizes": {"FULL": len(FULL), "CLSX": len(CLSX), "CORE": len(CORE)},
                            "space_legend": "F=all 128 ASCII + non-ASCII classes + surrogates + every escape shape; X=class "
                                            "representatives + same; K=behavioural core; digit = word length"}
